@@ -143,15 +143,16 @@ func (ec *EphemeralContractor) LockV2Contract(contractID types.FileContractID) (
 	ec.mu.Lock()
 	defer ec.mu.Unlock()
 
-	if ec.locks[contractID] {
+	rev, ok := ec.contracts[contractID]
+	if !ok {
+		// do not remember a lock for an id that does not exist: nobody would
+		// ever release it, and the id may be created later (renewal ids are
+		// predictable)
+		return rhp4.RevisionState{}, nil, errors.New("contract not found")
+	} else if ec.locks[contractID] {
 		return rhp4.RevisionState{}, nil, errors.New("contract already locked")
 	}
 	ec.locks[contractID] = true
-
-	rev, ok := ec.contracts[contractID]
-	if !ok {
-		return rhp4.RevisionState{}, nil, errors.New("contract not found")
-	}
 
 	_, renewed := ec.contracts[contractID.V2RenewalID()]
 
